@@ -25,6 +25,13 @@ CFG = {
         "For the concurrent class 'race add-vs-close' (C12_Race.v) case_accept := (the harness' witness linearisation respects real-time precedence and is replayed by the sequential model with the observed results) && r_holds, "
         "so case_sound is by conjunction there; r_holds states clauses that hold for every linearisation (an add invoked after Close returned is refused; after a drain reported closed-and-empty no later pop hands out an item and no later add is accepted; "
         "no invention / duplication / loss; real-time FIFO of ordinary adds). "
+        "Class 'constructors' (C12_More.v): 2-4 queues built one after the other with different option sets (q.NewQ with / without WithSize, mq.NewMQ with any subset and order of its two options, "
+        "async.NewQ / mux.NewQ sizes), construction interleaved with use; each queue is accepted against the model of ITS OWN options (None = option not given = capacity 0); sound by the per-queue simulation proofs. "
+        "Class 'parallel priq.PriQueue': 2-4 pushers and 2-4 poppers released from a spin barrier on one queue (GOMAXPROCS >= 8, 6000 rounds / ~4e5 calls in quick), final drain at quiescence; "
+        "pp_holds = clauses valid for every linearisation (no invention / duplication, no loss once a Pop invoked after all pushes said empty, real-time FIFO among equal priorities, real-time highest-priority-first); "
+        "no witness search for this class, case_accept := pp_holds; a sample of 40 ordinary rounds (300 thorough) and EVERY round whose handed-out multiset differs from the accepted pushes is evaluated in Coq. "
+        "Boundary item values: a quarter of the random histories of the pipe queues and mq.MQ queue nil, a typed nil pointer, the empty string, int(0) and struct{}{} (written -1..-5) like any other item - the unchanged code stores and returns them unchanged; "
+        "SyncQueue gets the non-nil ones only and PriQueue none, because their API answers nil for 'closed' / 'empty' (SyncQueue.Pop / TryPop, PriQueue.Pop), so an untyped nil item is indistinguishable there by the API's own definition (and a nil IEntry panics in Less). "
         "Trusted: Coq kernel + vm_compute; the hand models (C12_Pipe.v, C12_MQ.v, C12_Sync.v, C12_Pri.v) tied by the differential check; container/list, "
         "container/heap and github.com/eapache/queue are not re-modelled (list semantics; for the heap the theorems show that its documented contract "
         "- Pop returns a Less-minimum - determines the result uniquely); the Go harness' shadow count that decides which calls would block. "
@@ -39,6 +46,7 @@ CFG = {
         "one case = one sequential history of calls on a freshly constructed queue (one of pipe/q.Q, pipe/async.Q, pipe/mux.Q, pipe/mq.MQ, "
         "queue/syncq.SyncQueue, queue/priq.PriQueue) with the result of every call; a case is non-trivial when at least one item was handed out or "
         "at least one add was refused (full / closed); distinct = distinct Coq case term (configuration + calls + results). "
+        "Constructor class: one case = one group of queues with the per-queue histories. Parallel PriQueue class: one case = one round (calls, results, tick ranks). "
         "Concurrent class: one case = one distinct round of 'add versus close' (1-3 adder goroutines x 1-3 adds, one goroutine Close + drain, final drain at quiescence; results with invocation/response ticks of one atomic counter replaced by ranks); "
         "identical rounds are evaluated once (rounds run / distinct / evaluated are in harness_meta.race_add_vs_close); at most 600 distinct ordinary rounds per queue type are evaluated in Coq (6000 thorough) plus EVERY round in which the harness found no witness or an item after closed-and-empty"
     ),
